@@ -27,6 +27,8 @@ RULES = {
     'C08.h': 'what a session is told depends on its own permission list only (C09.d, repeated): every list the permission check reads is '
              'named after the session\'s user — a fallback to another list makes a non-administrator\'s replies a function of $$ keys that '
              'are not its own',
+    'C08.i': 'nobody becomes administrator without the whole credential (C09.c auth-store, repeated): the administrator flag of a session is '
+             'stored only after both credential comparisons (full equality) — an administrator may read and write every $$ key',
     'C08.g': 'a refused command is not replicated (C09.a.reply, repeated): an arm whose replication-table arm emits answers success only '
              'through its guard, and an Error answer of the guard can not reach a locally built success — the secure-key refusal is an '
              'Error like any other; answered Ok, the replication table sends the refused command to the other nodes, which run it with '
@@ -145,6 +147,7 @@ def run(ck, m):
     C09.framing_rule(ck, m, rule='C08.f')
     from nl import alias
     alias.repeat(ck, m, 'C09', ('C09.a.reply',), 'C08.g', floor=12, runner=C09.replies)
+    alias.repeat(ck, m, 'C09', ('C09.c',), 'C08.i', runner=C09.writers, key_filter=lambda k: 'auth-store' in k)
     alias.repeat(ck, m, 'C09', ('C09.d',), 'C08.h', runner=C09.fresh_credentials, key_filter=lambda k: 'permission-list-of-the-session-user' in k)
 
 
